@@ -50,7 +50,9 @@ type c20Event struct {
 // VerifC20Watcher drives the real StateChangeWatcher.run loop through K observations.
 func VerifC20Watcher() {
 	K := int(verifParam("K", 6))
-	ms := int64(time.Millisecond)
+	// the time unit of the configured periods: 1 ms by default, or coarser (e.g. 300 ms) so that
+	// periods and observation times straddle whole seconds
+	ms := int64(time.Millisecond) * verifParam("unitMs", 1)
 	clk := &c20Clock{now: 1_700_000_000_000_000_000, maxL: 3 * ms}
 	N := verifInt("N", 0, 4)
 	minStable := verifInt("minStable", 0, 10) * ms
